@@ -149,7 +149,8 @@ func lazyInitFields(fns []*ssa.Function) map[string]bool {
 			}
 			for _, f := range factsAt(st.Block()) {
 				bo, ok := f.Cond.(*ssa.BinOp)
-				if !ok || !f.Val || bo.Op != token.EQL {
+				// `F == nil` known true, or `F != nil` known false (early-return form)
+				if !ok || !(bo.Op == token.EQL && f.Val || bo.Op == token.NEQ && !f.Val) {
 					continue
 				}
 				if k, ok := bo.Y.(*ssa.Const); !ok || k.Value != nil {
@@ -180,7 +181,8 @@ func lazyInitStores(fns []*ssa.Function) map[ssa.Instruction]bool {
 			}
 			for _, f := range factsAt(st.Block()) {
 				bo, ok := f.Cond.(*ssa.BinOp)
-				if !ok || !f.Val || bo.Op != token.EQL {
+				// `F == nil` known true, or `F != nil` known false (early-return form)
+				if !ok || !(bo.Op == token.EQL && f.Val || bo.Op == token.NEQ && !f.Val) {
 					continue
 				}
 				if k, ok := bo.Y.(*ssa.Const); !ok || k.Value != nil {
